@@ -295,15 +295,15 @@ theorem go_le : ∀ e, Tot1 e := by
         dsimp only
         split
         · exact finish_tot (by le_auto) _ _ _ _ _
-        · cases hps : (ctorParams (s.mark.inst cty).1).isEmpty with
+        · cases hps : (ctorParams (s.inst cty).1).isEmpty with
           | true =>
-            obtain ⟨ts, Γ1, s1, h1, l1⟩ := ih.1 G Γ (s.mark.inst cty).2
+            obtain ⟨ts, Γ1, s1, h1, l1⟩ := ih.1 G Γ (s.inst cty).2
             simp only [if_true, h1]
-            exact finish_tot ((le_mark _).trans ((le_inst _ _).trans (l1.trans (le_push _ _)))) _ _ _ _ _
+            exact finish_tot (((le_inst _ _).trans (l1.trans (le_push _ _)))) _ _ _ _ _
           | false =>
-            obtain ⟨ts, Γ1, s1, h1, l1⟩ := ih.2.1 (ctorParams (s.mark.inst cty).1) G Γ (s.mark.inst cty).2
+            obtain ⟨ts, Γ1, s1, h1, l1⟩ := ih.2.1 (ctorParams (s.inst cty).1) G Γ (s.inst cty).2
             simp only [Bool.false_eq_true, if_false, h1]
-            exact finish_tot ((le_mark _).trans ((le_inst _ _).trans (l1.trans (le_push _ _)))) _ _ _ _ _
+            exact finish_tot (((le_inst _ _).trans (l1.trans (le_push _ _)))) _ _ _ _ _
   -- slit
   · intro i info idxs args ih exp G Γ s
     cases info with
